@@ -226,12 +226,13 @@ Definition tk_mu_mode (eps : F) (numf denf : tk_state -> nat -> mat) (st : tk_st
 Definition tk_mu_core (eps : F) (numc denc : tk_state -> vec) (st : tk_state) : tk_state :=
   let '(core, Fs) := st in
   (mk (shape core) (map3 (mu_entry_tk eps) (data core) (numc st) (denc st)), Fs).
-(* break happens BEFORE the normalisation of that iteration *)
+Definition tk_fin (normalize : bool) (st : tk_state) : tk_state := if normalize then tucker_normalize nrm st else st.
+(* normalize_factors: the start is normalised, every sweep ends with a normalisation, also on the convergence exit *)
 Definition non_negative_tucker (eps : F) (numf denf : nat -> tk_state -> nat -> mat) (numc denc : nat -> tk_state -> vec)
            (stop : nat -> tk_state -> bool) (normalize : bool) (n_modes n_iter_max : nat) (init : tk_state) : tk_state :=
   outer_loop n_iter_max 0
     (fun it st => tk_mu_core eps (numc it) (denc it) (fold_left (tk_mu_mode eps (numf it) (denf it)) (seq 0 n_modes) st))
-    stop (fun st => st) (fun st => if normalize then tucker_normalize nrm st else st) init.
+    stop (tk_fin normalize) (tk_fin normalize) (tk_fin normalize init).
 (* the oracles of the real algorithm, index level.
    prod_k M_k[idx_k, c_k] over the modes k (but `skip`) *)
 Definition tk_kron_entry (Ms : list mat) (skip : option nat) (idx c : list nat) : F :=
@@ -307,7 +308,7 @@ Definition non_negative_tucker_hals (alg : core_alg) (feps : F)
   outer_loop n_iter_max 0
     (fun it st => tk_hals_core alg feps (lr it) csp (lin it) (cutm it) (betas it) (support it) (as_n it)
                     (fold_left (tk_hals_mode (utm it) (utu it) (inner it) sps) modes st))
-    stop (fun st => st) (fun st => if normalize then tucker_normalize nrm st else st) init.
+    stop (tk_fin normalize) (tk_fin normalize) (tk_fin normalize init).
 
 (* ---------------------------------------------------------------- constrained_parafac(non_negative={modes}) *)
 (* admm: x_split = solve(...) (oracle `split`), x = prox(x_split^T - dual); prox = clip(., a_min=0) on the declared modes,
@@ -335,10 +336,10 @@ Definition initialize_ccp (nn : list nat) (other : nat -> mat -> mat) (raw : lis
   mapi_from 0 (fun k M => prox_nn (memb k nn) (other k) M) raw.
 
 (* ---------------------------------------------------------------- parafac2(nn_modes=...) *)
-(* line_step: factors_ls = last + (cur - last)*jump, clipped at 0 on modes 0 and 2 when declared (NOT on mode 1) *)
+(* line_step: factors_ls = last + (cur - last)*jump, clipped at 0 on every declared mode (nn_modes='all' = [0;1;2]) *)
 Definition line_entry (nn : list nat) (jump : F) (k : nat) (L C : mat) : mat :=
   let E := map2 (map2 (fun l c => l [+] ((c [-] l) [*] jump))) L C in
-  if (Nat.eqb k 0 || Nat.eqb k 2) && memb k nn then mmap (clip_min zero) E else E.
+  if memb k nn then mmap (clip_min zero) E else E.
 Fixpoint line_step_from (k : nat) (nn : list nat) (jump : F) (last cur : list mat) : list mat :=
   match last, cur with
   | L :: last', C :: cur' => line_entry nn jump k L C :: line_step_from (S k) nn jump last' cur'
@@ -361,9 +362,13 @@ Definition parafac2_iter (utm utu : nat -> nat -> cp_state -> nat -> mat) (solve
              | Some jump => if accept it (w0, Fs1) then line_step nn jump Fs0 Fs1 else Fs1
              | None => Fs1 end in
   if normalize then cp_normalize nrm (w0, Fs2) else (w0, Fs2).
+(* normalize_factors: the start is normalised (returned as is when no iteration runs) *)
 Definition parafac2 utm utu solve inner istop nn n_iter_parafac line accept normalize
            (stop : nat -> cp_state -> bool) (n_iter_max : nat) (init : cp_state) : cp_state :=
   outer_loop n_iter_max 0 (parafac2_iter utm utu solve inner istop nn n_iter_parafac line accept normalize)
-             stop (fun st => st) (fun st => st) init.
+             stop (fun st => st) (fun st => st) (cp_fin normalize init).
+(* the built-in initialisations ('random', 'svd') with nn_modes: the raw factors (A, B, C) are projected on the declared modes *)
+Definition initialize_parafac2_nn (nn : list nat) (raw : list mat) : list mat :=
+  mapi_from 0 (fun k M => if memb k nn then mmap (clip_min zero) M else M) raw.
 End Skeletons.
 End Model.
